@@ -32,7 +32,7 @@ def run(pid):
     #    projection of the real files after every flush (StoreMTrace: model-conformance figure, not a verdict)
     mkeys = [[1, 7, 7, 0, 9, 0, 3, 3], [1, 7, 7, 0, 9, 0, 3, 4], [2, 7, 7, 0, 9, 0, 3, 3]]
     drift_total = checked_total = 0
-    for pl, il, mc in ([(30, 30, 6), (70, 70, 6), (200, 70, 5)] if thorough else [(30, 30, 5)]):
+    for pl, il, mc in ([(30, 30, 6), (33, 70, 6), (28, 22, 5), (200, 70, 5)] if thorough else [(33, 30, 5)]):
         consts = {"Vals": "{0, 5}", "PriLimit": pl, "IdxLimit": il, "MaxCalls": mc}
         r0 = vlib.tlc_must("MCStore", "MCStore_mc.cfg", consts=consts, timeout=3000)
         if r0.violated:
